@@ -379,7 +379,10 @@ class C17(Prop):
             "reader query SEQUENCES on one reader (every query, then all again shuffled, then single-variable forms a third "
             "time), through pyflyby.saveframe, the "
             "script-mode validation + internal save function, and bin/saveframe run in-process; plus a systematic scope on one "
-            "fixed chained stack (every pattern of every frame, ranges between them, filter forms, umasks); a case is "
+            "fixed chained stack (every pattern of every frame, ranges between them, filter forms, umasks) and on one stack whose "
+            "function / file names are suffixes, prefixes and inner parts of one another (run, dry_run, Job.rerun, Job.run, "
+            "outer.<locals>.run, run2, <lambda>, prerun; mod.py, submod.py, mod.py2) x every name fragment as the function "
+            "component; a case is "
             "non-trivial when at least one frame was saved; distinct by program+arguments")
     trusted_base = ["`re` is modelled, not verified: the outcome of re.search per (regex, file name) is an input of the model "
                     "(recomputed by the harness with the stdlib `re`)",
@@ -495,8 +498,52 @@ class C17(Prop):
                     variables=variables, exclude_variables=exclude_variables, umask=umask, preexist=preexist,
                     unpick=list(unpick), flip=flip, qseed=qseed)
 
-    def exhaustive_cases(self, tier, rng):
+    # a stack whose function and file names are suffixes / prefixes of one another
+    EX_NAMES = {
+        "pkg/mod.py": EX_HEADER + (
+            "def run(_i):\n    a = 1\n    return _REG['s1'](1)\n_REG['s0'] = run\n\n"
+            "def dry_run(_i):\n    b = 2\n    return _REG['s2'](2)\n_REG['s1'] = dry_run\n\n"
+            "class Job:\n    def rerun(self, _i):\n        c = 3\n        return _REG['s3'](3)\n"
+            "    def run(self, _i):\n        d = 4\n        return _REG['s4'](4)\n"
+            "_REG['s2'] = Job().rerun\n_REG['s3'] = Job().run\n"),
+        "pkg/submod.py": EX_HEADER + (
+            "def outer(_i):\n    def run(_j):\n        e = 5\n        return _REG['s5'](5)\n    return run(_i)\n_REG['s4'] = outer\n\n"
+            "def run2(_i):\n    f = 6\n    return _REG['s6'](6)\n_REG['s5'] = run2\n"),
+        "lib/mod.py2": EX_HEADER + (
+            "_REG['s6'] = lambda _i: _REG['s7'](7)\n\n"
+            "def prerun(_i):\n    g = 7\n    raise ValueError('boom')\n_REG['s7'] = prerun\n"),
+    }
+
+    def _names_cases(self, tier, rng):
         out = []
+        prog = dict(files=self.EX_NAMES, entry="direct", main=None, n_tog=0)
+        fr = gen_c17.dry_frames(prog)
+        fns = []
+        for rel, line, name, qual, _ in fr:
+            for f_ in (name, qual, name[1:], qual.split(".", 1)[-1], "." + name):
+                if f_ and f_ not in fns:
+                    fns.append(f_)
+        fns += ["un", "run", "rerun", "Job.rerun", "b.rerun", "<locals>.run", "outer.<locals>.run", "r.<locals>.run", "lambda>"]
+        files = ["mod.py", "/mod.py$", "submod.py", "mod.py2", "/mod\\.py$", "pkg/", "."]
+        pats = []
+        for f_ in files:
+            for n_ in dict.fromkeys(fns):
+                pats.append("%s::%s" % (f_, n_))
+        for rel, line, name, qual, _ in fr:
+            pats += ["%s:%d:%s" % (os.path.basename(rel), line, name), ".:%d:" % line, ".:%d0:" % line, ".:1%d:" % line]
+        pats = list(dict.fromkeys(pats))
+        sels = list(pats) + [[a, b] for a, b in zip(pats[::7], pats[3::7])]
+        ranges = [a + ".." + b for a in pats[::3] for b in pats[1::5]] + [a + ".." for a in pats]
+        if tier != "thorough":
+            sels = rng.sample(sels, 120)
+            ranges = rng.sample(ranges, 60)
+        for s_ in sels + ranges:
+            u = "function" if (len(out) % 3 or isinstance(s_, list)) else "script"
+            out.append(self._mk(self.EX_NAMES, frames=s_, utility=u, qseed=len(out)))
+        return out
+
+    def exhaustive_cases(self, tier, rng):
+        out = self._names_cases(tier, rng)
         prog = dict(files=self.EX_FILES, entry="direct", main=None, n_tog=2)
         fr = gen_c17.dry_frames(prog)
         pats = []
